@@ -10,6 +10,7 @@ CONSTANTS
   Aging = FALSE
   TwoStep = FALSE
   RecAging = TRUE
+  MaxFaults = 0
 INVARIANTS NoPanic
 PROPERTIES CallsReturn WaitsReturn PlansEnd
 CHECK_DEADLOCK FALSE
